@@ -133,9 +133,10 @@ def main():
                     ran[k] = v
         except Exception:
             pass
-    if os.path.exists(dst):
-        shutil.rmtree(dst)
-    shutil.copytree(src, dst)
+    if os.path.realpath(src) != os.path.realpath(dst):
+        if os.path.exists(dst):
+            shutil.rmtree(dst)
+        shutil.copytree(src, dst)
     meta["ran"] = ran
     json.dump(meta, open(os.path.join(dst, "meta.json"), "w"), indent=1)
     print(json.dumps({k: v for k, v in ran.items() if k != "checks"}, indent=1)[:1500])
